@@ -27,6 +27,7 @@ func init() {
 		ruleNullBlock(c, "C01.R11")
 		ruleBlindBlock(c, "C01.R12")
 		ruleShrinkReserve(c, "C01.R13")
+		ruleShortWrite(c, "C01.R14")
 	}
 }
 
